@@ -1127,6 +1127,22 @@ impl<T: Serialize + for<'de> Deserialize<'de> + Clone + PartialEq + Send + Sync 
             }
         }
 
+        // A torn record at the end of the live log means the process died while
+        // appending. Cut it off: the log is opened for append, and records written
+        // behind bytes that cannot be framed would be lost at the next recovery.
+        if framed_end < file_len
+            && path.file_name() == Some(std::ffi::OsStr::new(&format!("state.{WAL_EXTENSION}")))
+        {
+            match OpenOptions::new().write(true).open(path) {
+                Ok(live) => {
+                    if let Err(e) = live.set_len(framed_end).and_then(|()| live.sync_all()) {
+                        tracing::warn!("Failed to trim torn WAL tail of {:?}: {}", path, e);
+                    }
+                }
+                Err(e) => tracing::warn!("Failed to open {:?} to trim torn tail: {}", path, e),
+            }
+        }
+
         Ok(entries_recovered)
     }
 
@@ -1381,6 +1397,16 @@ impl<T: Serialize + for<'de> Deserialize<'de> + Clone + PartialEq + Send + Sync 
             }
 
             let entry_size = u32::from_le_bytes(size_bytes) as usize;
+            let remaining = file
+                .metadata()
+                .map(|m| m.len())
+                .unwrap_or(0)
+                .saturating_sub(file.stream_position().unwrap_or(0));
+            if entry_size as u64 > remaining {
+                return Err(P2PError::Storage(StorageError::Database(
+                    "WAL record length exceeds file size".to_string().into(),
+                )));
+            }
 
             // Read entry data
             buffer.resize(entry_size, 0);
